@@ -473,3 +473,16 @@ CHECKS["C08"] = dict(
     outside=["complex arguments away from Gaussian integers", "floating-point arguments (C12 covers numeric evaluation)", "polygamma, lowergamma/uppergamma, atan2 tables", "arguments that are rational multiples of pi with denominators other than 12's divisors"],
     assumptions=["oracle D2/D3 (vlib/veval.h): sin/cos/exp/log as uninterpreted functions with the textbook identities as instance axioms; radicals as real algebraic numbers"],
 )
+
+CHECKS["C19"] = dict(
+    src="C19.cpp", level="model_checking",
+    entries=[
+        dict(name="harness_c19_universe", quick={}, thorough={"gauss_rat": 1}),
+        dict(name="harness_c19_classes", quick={}, thorough={}),
+        dict(name="harness_c19_matrix", quick={}, thorough={}),
+    ],
+    anchors=["SymEngine::RCPBasicAwareOutputArchive", "SymEngine::RCPBasicAwareInputArchive", "SymEngine::save_basic", "SymEngine::load_basic"],
+    bounds="the 25 templates of the C01 universe (all number kinds with symbolic payloads: integers in [-3,3], rationals, Gaussian numbers, doubles over all 2^64 bit patterns, infinities, nan; Symbol, Mul, Add, Pow, Sin, FiniteSet, Interval, Lt, polynomials and matrices where serialisable) and 34 further class representatives with a symbolic integer slot (Dummy, constants, every one- and two-argument function class, max/min, FunctionSymbol, Derivative, Subs, relationals, And/Or/Not/Xor, Piecewise, Contains, Union, Complement, ImageSet, ConditionSet): loads(dumps(e)) == e with equal class and hash, doubles bit for bit, a twice-referenced subexpression restored as one object; DenseMatrix of 1..2 x 1..3 symbolic entries through the statements of DenseMatrix::dumps/loads",
+    outside=["the std::ostringstream / std::istringstream plumbing of cereal (replaced by the memory-backed archives of vlib/vcereal.h with the same byte format)", "RealMPFR / ComplexMPC (not in this build)", "expressions with more than one symbolic slot per class representative"],
+    assumptions=["vlib/vcereal.h reproduces the byte format of cereal::PortableBinary{Output,Input}Archive on a little-endian machine"],
+)
